@@ -7,9 +7,17 @@
 (* and are extracted from the running code (inspect.signature, PoolKey._fields) into the      *)
 (* generated cfg, so the theorems below are checked for the tree as it is.                    *)
 (*                                                                                           *)
-(* A setting value is an index: 0 = absent / None, 1..NV = the distinct non-None values of a   *)
-(* per-keyword table held by the harness (vh/c18.py).  What the table guarantees is stated by  *)
-(* three constants computed from it at run time (CloneKw, DefectTwinKw, CtorDefaultKw).        *)
+(* A setting value is an index: 0 = absent / None, 1..NVof[kw] = the non-None values of a       *)
+(* per-keyword table held by the harness (vh/c18.py, vh/c18values.py):                         *)
+(*   1..NV            three hand-picked plain values (CloneKw, DefectTwinKw, CtorDefaultKw say    *)
+(*                    what the table guarantees about them; computed from the objects)           *)
+(*   NV+1 .. NVof[kw] only for STRUCTURED keywords (StructKw: Retry, Timeout, ProxyConfig, Url,    *)
+(*                    header / option dicts, socket-option lists, SSLContext).  These values are  *)
+(*                    derived at run time from the value TYPE (inspect.signature of the           *)
+(*                    constructor, namedtuple fields, dict keys, list items, settable            *)
+(*                    attributes): BaseV a base object, CloneV an equal-content object built      *)
+(*                    separately, and one FIELD VARIANT per constructor parameter / field that    *)
+(*                    differs from the base in exactly that parameter.                           *)
 (*                                                                                           *)
 (* Layers:  CONTRACT  what a request asks for (capture of constructor defaults, merge of       *)
 (*                    per-request overrides, proxy routing) — shared by Rules and Model;       *)
@@ -26,11 +34,17 @@ CONSTANTS
     ManagerOwn,     \* code: named parameters of the manager constructors (kept by the manager, not pool kwargs)
     SslKeywords,    \* code: poolmanager.SSL_KEYWORDS (dropped when an http pool is created)
     KeyDefaultKw,   \* model: fields the normaliser defaults to value 1 when None (blocksize -> _DEFAULT_BLOCKSIZE)
-    NV,             \* table: number of non-None values per keyword
+    NV,             \* table: number of plain (hand-picked) non-None values per keyword
+    NVof,           \* table+code: [Settings -> Nat] number of non-None values of each keyword: NV, or for a
+                    \*   structured keyword NV + 2 + number of constructor parameters / fields of its value type
+    StructKw,       \* table+code: the structured keywords (values NV+1.. derived from the value type)
+    ValueEqKw,      \* table+code: structured keywords whose type has value equality (dict, list, namedtuple): the
+                    \*   separately built clone == the base in Python.  Retry, Timeout, SSLContext compare by identity.
     CloneKw,        \* table: value 3 is an equal-content / equal-meaning twin of value 1 (same setting, == in Python)
     DefectTwinKw,   \* table: values 1 and 2 are different settings that Python's == conflates (retries False / 0)
     CtorDefaultKw,  \* table+code: value 1 equals the constructor's own default (absent means that value)
     KnownDefects,   \* subset of {"PyEqTwins", "PortZero"}: recorded deviations the Model reproduces
+    Deviations,     \* {} or {"LossyValueCanonicalisation"}: a seeded fault of the Model that TLC must refute
     Scenarios       \* the scenarios explored in stage 1 / emitted in stage 2 (MC_PoolKey)
 
 NOPORT  == 0 - 1                      \* no port given
@@ -39,7 +53,10 @@ NOTINTABLE == 0 - 1                      \* observed value that is none of the t
 UNKNOWN == "zz_unknown"               \* a keyword nobody accepts
 Settings    == ((Keywords \cup KeyFields) \ IdentityKw) \cup {UNKNOWN}
 KeySettings == KeyFields \ IdentityKw
-Vals        == 0..NV
+ValsOf(kw)  == 0..NVof[kw]
+BaseV       == NV + 1                 \* structured keyword: the base object
+CloneV      == NV + 2                 \*   an equal-content object built separately from the same constructor arguments
+FieldVs(kw) == (NV + 3)..NVof[kw]     \*   one variant per constructor parameter / field, differing from the base in it
 
 \* TLC cannot lower-case strings; the alphabet of schemes and hosts is fixed, so Lower is a table.
 Lower(s) == CASE s = "HTTP" -> "http" [] s = "HTTPS" -> "https" [] s = "A.TEST" -> "a.test"
@@ -55,17 +72,18 @@ PROXY == [scheme |-> "http", host |-> "proxy.test", port |-> 3128]      \* the p
 
 \* PoolManager.__init__ / ProxyManager.__init__: named parameters (headers) stay with the manager,
 \* a proxy manager forces its three proxy settings.
+\* (TLCEval is the identity; it makes TLC build the function once instead of re-evaluating its body at every application)
 Capture(mk, dflt) ==
-    [kw \in Settings |->
+    TLCEval([kw \in Settings |->
         IF mk = "proxy" /\ kw \in {"_proxy", "_proxy_headers", "_proxy_config"} THEN 1
         ELSE IF kw \in ManagerOwn THEN 0
-        ELSE dflt[kw]]
+        ELSE dflt[kw]])
 
 \* _merge_pool_kwargs: overrides win, None removes; connection_from_context takes the caller's dict as is.
 MergeKw(cpkw, r) ==
-    [kw \in Settings |->
+    TLCEval([kw \in Settings |->
         IF r.via = "context" THEN (IF r.ov[kw] = NOOV THEN 0 ELSE r.ov[kw])
-        ELSE IF r.ov[kw] = NOOV THEN cpkw[kw] ELSE r.ov[kw]]
+        ELSE IF r.ov[kw] = NOOV THEN cpkw[kw] ELSE r.ov[kw]])
 
 \* ProxyManager.connection_from_host: everything that is not https goes to the proxy's own pool.
 Route(mk, r) ==
@@ -85,23 +103,39 @@ Ask(mk, cpkw, r0) ==
 (* RULES: the property.                                                                       *)
 
 Eff(kw, v)      == IF v = 0 /\ kw \in CtorDefaultKw THEN 1 ELSE v       \* absent means the constructor default
-SemEq(kw, a, b) == a = b \/ (kw \in CloneKw /\ {a, b} = {1, 3})         \* the same setting
+\* the same setting: equal content (a second dict / list with the same items; an object built from the same arguments)
+SemEq(kw, a, b) == \/ a = b
+                   \/ (kw \in CloneKw /\ {a, b} = {1, 3})
+                   \/ (kw \in StructKw /\ {a, b} = {BaseV, CloneV})
+\* equal as Python values: the same setting AND the type has value equality.  Two separately built Retry / Timeout /
+\* SSLContext objects with equal content are different Python values; the statement ("only if ... are equal") does
+\* not say whether they must share, so that pair is Either.
+ValEq(kw, a, b) == \/ a = b
+                   \/ (kw \in CloneKw /\ {a, b} = {1, 3})
+                   \/ (kw \in ValueEqKw /\ {a, b} = {BaseV, CloneV})
 RulePort(c)     == IF c.port = NOPORT THEN DefaultPort(c.scheme) ELSE c.port
 SameEndpoint(c1, c2) == /\ Lower(c1.scheme) = Lower(c2.scheme)
                         /\ Lower(c1.host) = Lower(c2.host)
                         /\ RulePort(c1) = RulePort(c2)
+\* Latitude (DESIGN.md 4 C18/C15): an explicit port 0 is not a connectable port and the statement does not say what it
+\* means; urllib3 reads it as "no port given" on the url / host routes and keeps it on the context route.
+ZeroAsDefault(c) == IF c.port = 0 /\ c.via # "context" THEN DefaultPort(c.scheme) ELSE RulePort(c)
 \* TLS keywords do not affect a plain-http connection (the manager drops them for http pools)
 Affecting(c) == IF Lower(c.scheme) = "http" THEN Settings \ SslKeywords ELSE Settings
 
 \* Three-valued reference on two asked contexts that were both served:
-\*   MustDiffer  an endpoint component or a connection-affecting setting differs
-\*   MustShare   nothing differs except case, default port, equal-content twins
+\*   MustDiffer  an endpoint component or a connection-affecting setting differs (for a structured value: ANY
+\*               constructor parameter / field of the value differs)
+\*   MustShare   nothing differs except case, default port, equal-content twins of a type with value equality
 \*   Either      they differ only in something that cannot affect the connection
-\*               (explicit constructor default vs absent; TLS keyword on plain http)
+\*               (explicit constructor default vs absent; TLS keyword on plain http; equal-content objects of a
+\*               type that compares by identity), or the endpoints agree only under one reading of an explicit
+\*               port 0 (0 kept on the context route, read as "no port" on the host route)
 Verdict(c1, c2) ==
     IF ~SameEndpoint(c1, c2) THEN "MustDiffer"
     ELSE IF \E kw \in Affecting(c1) : ~SemEq(kw, Eff(kw, c1.s[kw]), Eff(kw, c2.s[kw])) THEN "MustDiffer"
-    ELSE IF \A kw \in Settings : SemEq(kw, c1.s[kw], c2.s[kw]) THEN "MustShare"
+    ELSE IF /\ \A kw \in Settings : ValEq(kw, c1.s[kw], c2.s[kw])
+            /\ ZeroAsDefault(c1) = ZeroAsDefault(c2) THEN "MustShare"
     ELSE "Either"
 
 \* Is a pool configured conf = [scheme, host, port, s] what context c asked for?  (conf.s[kw] may be NOTINTABLE:
@@ -119,7 +153,6 @@ ConfOk(conf, c) == ConfEndpointOk(conf, c) /\ ConfBadKw(conf, c) = {}
 \* (MustDiffer) share a pool, or that a pool serving c is configured differently.
 TwinOnly(kw, a, b) == kw \in DefectTwinKw /\ {a, b} = {1, 2}
 DiffKw(c1, c2) == {kw \in Affecting(c1) : ~SemEq(kw, Eff(kw, c1.s[kw]), Eff(kw, c2.s[kw]))}
-ZeroAsDefault(c) == IF c.port = 0 /\ c.via # "context" THEN DefaultPort(c.scheme) ELSE RulePort(c)
 PortZeroExplains(c1, c2) == /\ Lower(c1.scheme) = Lower(c2.scheme) /\ Lower(c1.host) = Lower(c2.host)
                             /\ ZeroAsDefault(c1) = ZeroAsDefault(c2)
 \* the set of recorded deviations needed to explain every difference ("none" = not explained by any)
@@ -146,13 +179,17 @@ MergeStep(mk, cpkw, r) ==
 \* _default_key_normalizer: lower-case scheme and host, freeze containers (value level: CloneKw), None for
 \* missing fields, blocksize default; PoolKey(**context) raises TypeError for a key_<kw> it does not know.
 Rejected(ctx) == \E kw \in Settings : ctx.s[kw] # 0 /\ kw \notin KeyFields
+\* The key holds the value itself.  Deviation LossyValueCanonicalisation (a fault TLC must refute, never enabled when
+\* real traces are judged): the key is computed from a PROJECTION of a structured value that forgets one field (e.g. a
+\* repr() that does not print it) - here the last field: the variant that differs from the base only there gets the
+\* base's key component.
+Canon(f, v) == IF "LossyValueCanonicalisation" \in Deviations /\ f \in StructKw /\ v = NVof[f] THEN BaseV ELSE v
 Normalise(ctx) ==
     [rej |-> Rejected(ctx), scheme |-> Lower(ctx.scheme), host |-> Lower(ctx.host), port |-> ctx.port,
-     s |-> [f \in KeySettings |-> IF ctx.s[f] = 0 /\ f \in KeyDefaultKw THEN 1 ELSE ctx.s[f]]]
+     s |-> TLCEval([f \in KeySettings |-> IF ctx.s[f] = 0 /\ f \in KeyDefaultKw THEN 1 ELSE Canon(f, ctx.s[f])])]
 
-\* equality of key components is Python's ==
-PyEqV(kw, a, b) == \/ a = b
-                   \/ (kw \in CloneKw /\ {a, b} = {1, 3})
+\* equality of key components is Python's == (after freezing containers)
+PyEqV(kw, a, b) == \/ ValEq(kw, a, b)
                    \/ ("PyEqTwins" \in KnownDefects /\ kw \in DefectTwinKw /\ {a, b} = {1, 2})
 KeyEq(k1, k2) == /\ k1.scheme = k2.scheme /\ k1.host = k2.host /\ k1.port = k2.port
                  /\ \A f \in KeySettings : PyEqV(f, k1.s[f], k2.s[f])
@@ -163,7 +200,7 @@ KeyEq(k1, k2) == /\ k1.scheme = k2.scheme /\ k1.host = k2.host /\ k1.port = k2.p
 Hit(pools, key) == {i \in 1..Len(pools) : KeyEq(pools[i].key, key)}
 NewConf(ctx, key) ==
     [scheme |-> ctx.scheme, host |-> Lower(ctx.host), port |-> ctx.port,
-     s |-> [f \in KeySettings |-> IF ctx.scheme = "http" /\ f \in SslKeywords THEN 0 ELSE key.s[f]]]
+     s |-> TLCEval([f \in KeySettings |-> IF ctx.scheme = "http" /\ f \in SslKeywords THEN 0 ELSE key.s[f]])]
 Serve(pools, ctx, key) ==
     IF key.rej THEN [pools |-> pools, exc |-> "TypeError", pool |-> 0]
     ELSE IF Hit(pools, key) # {} THEN [pools |-> pools, exc |-> "none", pool |-> CHOOSE i \in Hit(pools, key) : TRUE]
@@ -218,7 +255,9 @@ Spec == Init /\ [][Next]_vars
 (* What TLC checks (stage 1).  With KnownDefects = {} these are the strict statements; with the recorded    *)
 (* deviations enabled in the Model they hold exactly up to the recorded signatures.                        *)
 
-TypeOK == /\ cpkw \in [Settings -> Vals]
+TypeOK == /\ DOMAIN cpkw = Settings /\ \A kw \in Settings : cpkw[kw] \in ValsOf(kw)
+          /\ StructKw \subseteq Settings /\ ValueEqKw \subseteq StructKw /\ \A kw \in StructKw : NVof[kw] >= NV + 3
+          /\ \A kw \in Settings \ StructKw : NVof[kw] = NV
           /\ pc \in {"merge", "key", "serve", "done"}
           /\ \A i \in 1..Len(outs) : outs[i].exc \in {"none", "TypeError", "KeyError"}
           /\ \A i \in 1..Len(outs) : outs[i].exc = "none" <=> outs[i].pool \in 1..Len(pools)
